@@ -79,6 +79,10 @@ def constructed(rng):
                 cc = c * P10[s - k] + rng.choice((0, 1, P10[s - k] // 2, P10[s - k] - 1))
                 if cc <= M:
                     out.append(req("none", None, k, cc * rng.choice((1, -1)), s))
+    # decision boundary of division-free divisibility tests (x * inverse(5^n) mod 2^w against floor((2^w - 1) / 5^n))
+    for c, n_ in G.modinv_boundary_all(rng)[::2]:
+        s = rng.randrange(n_, 19)
+        out.append(req(rng.choice(FLAGNAMES), None, rng.choice((None, s - n_, s)), c * rng.choice((1, -1)), s))
     # zero values under every flag set, with and without width / precision
     for s in range(0, 19, 3):
         for fl in FLAGNAMES:
